@@ -13,11 +13,13 @@ import shutil
 import tempfile
 import time
 
-from translate import c12_index
+from translate import c12_index, c13_exc, c04_fmt
 from vlib import core
 from vlib import c13_corrupt as C
 
 TARGETS = ["Props/C12.vo"]
+TABLE_TARGETS = ["Props/C12_Table.vo"]
+TABLE_FORMATS = ["xyz", "rawxyz", "pdffit", "discus"]       # formats with a Coq writer model (C04) and a parser model (C13)
 
 KINDS = ["ValueError", "IndexError", "KeyError", "TypeError", "StopIteration", "ZeroDivisionError", "OverflowError",
          "UnboundLocalError", "NameError", "AttributeError", "SyntaxError", "AssertionError", "RecursionError", "MemoryError",
@@ -192,7 +194,88 @@ def build(ctx):
         ok = ctx.regen("c12_index", c12_index.generate)
         if ok:
             ctx.coq(TARGETS, theorems_in={"Props/C12"})
+        # the rejection table: parser models of C13 instantiated with the writer/codec models of C04
+        ok13 = ctx.regen("c13_exc", c13_exc.generate)
+        ok04 = ctx.regen("c04_fmt", c04_fmt.generate)
+        ctx.table_ok = False
+        if ok and ok13 and ok04:
+            tok, _ = ctx.coq(TABLE_TARGETS, theorems_in={"Props/C12_Table"})
+            ctx.table_ok = tok
         return ok
+
+
+def side_conditions(wf, text):
+    """The side conditions of the rejection-table theorems, evaluated on a writer's text."""
+    lines = text.split("\n")
+    if wf == "xyz":
+        title = lines[1].split() if len(lines) > 1 else []
+        rows = [ln.split() for ln in lines[2:] if ln.split()]
+        return not (title and title[0] == "cell") and all(r[0] != "cell" for r in rows)
+    if wf == "rawxyz":
+        return all(ln.split()[0] != "cell" for ln in lines if ln.split())
+    if wf == "discus":
+        i = lines.index("atoms") if "atoms" in lines else len(lines)
+        for ln in lines[i + 1:]:
+            w = ln.split()
+            if w:
+                try:
+                    float(w[0])
+                    return False
+                except ValueError:
+                    pass
+        return True
+    return True
+
+
+WITNESS_XYZ = "1\ncell 1 1 1 90 90 90\nC   0 0 0\n"
+
+
+def table_correspondence(ctx, results, text_of, wfmt_of):
+    """conc_g (C13 control-flow model + C04 codecs) evaluated in Coq on the ACTUAL texts of the four writers, against the
+    real parsers (every cell of the 4x4 block, diagonal included), plus the title witness of the refuted cell."""
+    from diffpy.structure.parsers import getParser
+    cases = [(tid, text_of[tid], wfmt_of[tid]) for tid in sorted(results) if wfmt_of[tid] in TABLE_FORMATS]
+    cases = [c for c in cases if c[1].isascii()][:24 if ctx.tier == "quick" else 96]
+    cases.append((("witness", 0, "xyz"), WITNESS_XYZ, "xyz"))
+    if not getattr(ctx, "table_ok", False):
+        ctx.obligation("correspondence:table-models-vs-live-parsers", False, "Props/C12_Table not built")
+        return
+    body = """From Coq Require Import List String ZArith DecimalString.
+From DS Require Import Base.C13_Exn Base.C04_Text Base.C04_Decimal Model.C04_Fmt Model.C04_Pdffit Model.C12_Conc.
+Import ListNotations. Open Scope string_scope.
+Definition shw (r : res nat) : string := match r with Ok n => "ok " ++ NilEmpty.string_of_uint (Nat.to_uint n) | Raise FormatError => "FormatError"
+  | Raise NotImplemented => "NotImplemented" | Raise _ => "other" end.
+Definition run4 (ls : list string) : list string :=
+  let l := map s ls in
+  [shw (conc_xyz l); shw (conc_rawxyz l);
+   shw (conc_pdffit (fun _ => Ok tt) (fun v _ => Ok v) l);
+   shw (conc_discus (fun _ => Ok tt) (fun v _ => Ok v) (fun _ _ => Ok tt) (fun _ => [dzero; dzero; dzero; dzero; dzero; dzero]) l)].
+"""
+    body += "Eval vm_compute in [%s].\n" % ";\n ".join(
+        "run4 [%s]" % "; ".join(coq_string(ln) for ln in t.rstrip("\r\n").split("\n")) for _, t, _ in cases)
+    with core.BuildLock():
+        # another check may have regenerated a Gen file in between: bring the dependencies up to date under the same lock
+        core.coq_make(["Model/C12_Conc.vo"], timeout=900)
+        rc, out = ctx.coq_eval("c12_table", body, timeout=900)
+    m = re.search(r"=\s*(\[.*\])\s*:\s*list \(list string\)", out, re.S)
+    bad = []
+    if rc != 0 or not m:
+        bad.append("coq evaluation failed: " + out[-300:])
+    else:
+        rows = re.findall(r"\[([^\[\]]*)\]", m.group(1)[1:-1])
+        if len(rows) != len(cases):
+            bad.append("expected %d result rows, got %d" % (len(cases), len(rows)))
+        for (tid, text, wf), row in zip(cases, rows):
+            model = parse_coq_strs(row)
+            for g, mres in zip(TABLE_FORMATS, model):
+                o = outcome(lambda g=g: (getParser(g).parse(text), g))
+                live = "ok %d" % len(o["sig"]["atoms"]) if o["kind"] == "ok" else \
+                    {"StructureFormatError": "FormatError", "NotImplementedError": "NotImplemented"}.get(o["kind"], "other")
+                ctx.count(("table-cell", wf, g, live.split()[0]))
+                if live != mres:
+                    bad.append("%s text (%s) read by %s: model %s, parser %s" % (wf, tid, g, mres, live))
+    ctx.obligation("correspondence:table-models-vs-live-parsers", not bad, "; ".join(bad[:4]))
+    ctx.coverage["table_model_cases"] = len(cases) * 4
 
 
 def registry_and_order_correspondence(ctx, ok):
@@ -215,6 +298,7 @@ def registry_and_order_correspondence(ctx, ok):
     body += "Eval vm_compute in [%s].\n" % "; ".join(
         "String.concat \",\" (ordered_formats %s)" % ("None" if n is None else "(Some %s)" % coq_string(n)) for n in names)
     with core.BuildLock():
+        core.coq_make(["Model/C12_Auto.vo"], timeout=900)
         rc, out = ctx.coq_eval("c12_order", body)
     blocks = coq_list_strings(out, None)
     bad = []
@@ -291,7 +375,12 @@ def run(ctx):
     ]
     ctx.assumptions += [
         "C12_auto_on_written_text_partial assumes the rejection table (every other registered parser rejects a writer's text); "
-        "the table is measured each run on generated structures x 7 writers x 7 parsers and reported in the evidence",
+        "the table is measured each run on generated structures x 7 writers x 7 parsers and reported in the evidence; for the "
+        "4x4 block xyz/rawxyz/pdffit/discus the twelve cross cells are theorems (Props/C12_Table.v) about the C13 parser models "
+        "instantiated with the C04 codecs, under side conditions (title/element is not the word `cell`; discus element symbols do "
+        "not read as numbers) whose necessity is proved by a witness; the cif, pdb, xcfg rows and columns stay measured",
+        "own-format acceptance (the diagonal) is a hypothesis of C12_auto_written_*_partial: measured here, proved for C04's reader "
+        "models by C04's round-trip theorems",
         "C12_auto_never_propagates_given_C13 assumes C13 for every registered parser (known C13 findings: cif getSymOp eval, cif "
         "non-scalar items)",
         "structures are compared exactly (same parser, same text); timestamps are not part of the comparison",
@@ -313,6 +402,11 @@ def run(ctx):
     ctx.log("ran detection on %d texts in %.1fs" % (len(results), time.time() - t0))
     text_of = {t[0]: t[1] for t in tasks}
     wfmt_of = {t[0]: t[2] for t in tasks}
+
+    table_correspondence(ctx, results, text_of, wfmt_of)
+    n_side = sum(1 for tid in results if wfmt_of[tid] in TABLE_FORMATS)
+    n_side_ok = sum(1 for tid in results if wfmt_of[tid] in TABLE_FORMATS and side_conditions(wfmt_of[tid], text_of[tid]))
+    ctx.coverage["table_side_conditions"] = "%d of %d generated writer texts satisfy the side conditions of the cell theorems" % (n_side_ok, n_side)
 
     # ---- rejection table (hypothesis of the written-text theorem) ------------------------------------
     table = {}
@@ -344,7 +438,8 @@ def run(ctx):
             chunk.append("enc (auto (tab %s) %s)" % (tabv, fn))
         body += "Eval vm_compute in [%s].\n" % ";\n ".join(chunk)
         with core.BuildLock():
-            rc, out = ctx.coq_eval("c12_auto", body, timeout=900)
+            core.coq_make(["Model/C12_Auto.vo"], timeout=900)
+        rc, out = ctx.coq_eval("c12_auto", body, timeout=900)
         blocks = coq_list_strings(out, None)
         if rc == 0 and blocks:
             for c, r in zip(cases, parse_coq_strs(blocks[0])):
@@ -414,7 +509,8 @@ def run(ctx):
                 elif not same_sig(o["sig"], exp[g]["sig"]):
                     viol("detection (%s, file name %r) returned atoms/lattice different from format %r named explicitly" % (en, h, g),
                          "auto:differs-from-explicit:%s:%s" % (wf or "text", g))
-                elif wf and g != wf and not (exp[wf]["kind"] == "ok" and same_sig(o["sig"], exp[wf]["sig"], 1e-6)):
+                elif wf and g != wf and side_conditions(wf, text) \
+                        and not (exp[wf]["kind"] == "ok" and same_sig(o["sig"], exp[wf]["sig"], 1e-6)):
                     viol("text written as %s is detected as %s with different atoms/lattice (%s, file name %r)" % (wf, g, en, h),
                          "auto:wrong-format:%s:%s" % (wf, g))
             elif wf:
